@@ -1,10 +1,10 @@
-\* quick: every selection x every port map (with/without the -1 default, unmapped tracks, empty map)
+\* quick: every selection x every port map (with/without the -1 default, unmapped tracks, foreign keys, empty map)
 \* atomic Player actions + ghost acceptor: stable merge, exactly once, no meta, no deadlock, acceptor complete
 CONSTANTS
   NT = 3
   NE = 1
   MaxNow = 1
-  Kinds <- KindsAll
+  Kinds <- KindsNoB
   TimePats <- Pats3
   Sels <- SelsAll
   PortMaps <- PMall
